@@ -99,19 +99,26 @@ func (g *gen) clientHist(depth int) {
 			}
 		}
 		for _, sq := range seqs {
-			for _, rel := range []string{"ok", "fail"} {
+			for _, rel := range []string{"ok", "fail", "a-ok", "a-fail"} {
 				g.caseMark("client-l2", cnt)
 				cnt++
 				g.emit("CL new 100 %d %d %d 0 0", c.att, c.noclose, c.fb)
 				hn := 2
 				g.emit("CL start %s %s 1", showHex(ids[0]), showHex(reqFor(ids[0], 28, 1)))
-				g.emit("CL blockwrite %s", showHex(ids[0]))
+				if rel[0] == 'a' { // the collector comes to rest inside ClientAgent.Start instead of Connection.Write
+					g.emit("CL blockagent %s", showHex(ids[0]))
+					rel = rel[2:]
+				} else {
+					g.emit("CL blockwrite %s", showHex(ids[0]))
+				}
 				g.emit("CL tick2 101")
 				for _, i := range sq {
 					mid[i](&hn)
 				}
 				g.emit("CL release %s", rel)
 				g.emit("CL start %s %s %d", showHex(ids[0]), showHex(reqFor(ids[0], 24, 2)), hn)
+				g.emit("CL start %s %s %d", showHex(ids[1]), showHex(reqFor(ids[1], 24, 3)), hn+1)
+				g.emit("CL deliver %s", showHex(respFor(ids[1], 3)))
 				g.emit("CL deliver %s", showHex(respFor(ids[0], 2)))
 				g.emit("CL tick 100000")
 				g.emit("CL close")
@@ -227,7 +234,11 @@ func (g *gen) clientHist(depth int) {
 				g.emit("CL start %s %s %d", showHex(id), showHex(reqFor(id, 20+g.r.intn(40), byte(k))), hn)
 				hn++
 				g.emit("CL setrto %d", rto)
-				g.emit("CL blockwrite %s", showHex(id))
+				if g.r.chance(1, 2) {
+					g.emit("CL blockwrite %s", showHex(id))
+				} else {
+					g.emit("CL blockagent %s", showHex(id))
+				}
 				g.emit("CL tick2 %d", now-8)
 				for j := g.r.intn(3); j > 0; j-- {
 					switch g.r.intn(4) {
